@@ -120,9 +120,10 @@ func refEncode(ch []lcert) []byte {
 
 func readChain(c *core.Ctx, blob []byte, plan core.ReaderPlan) (certurl.CertChain, error, *core.PanicInfo, uint64) {
 	sr := c.NewReader("certnet", blob, plan)
+	src, _ := c.WrapSource("certnet", sr)
 	var ch certurl.CertChain
 	var err error
-	pi, alloc := c.GuardAlloc("ReadCertChain", func() { ch, err = certurl.ReadCertChain(sr) })
+	pi, alloc := c.GuardAlloc("ReadCertChain", func() { ch, err = certurl.ReadCertChain(src) })
 	return ch, err, pi, alloc
 }
 
